@@ -55,6 +55,8 @@ try:
     mut = tests()
     rec["tests_clean"], rec["tests_patched"] = base, mut
     rec["tests_unchanged"] = (base is not None and mut is not None and base["failed"] == mut["failed"])
+    if base is not None and mut is not None and base["failed"] != mut["failed"]:
+        rec["tests_differing"] = sorted(set(base["failed"]) ^ set(mut["failed"]))[:10]
     evp = os.path.join(HERE, "evidence", a.pid + ".json")
     keep = open(evp).read() if os.path.exists(evp) else None
     r = subprocess.run([os.path.join(HERE, "check"), a.pid, "--tier", a.tier], cwd=HERE, env=dict(env, VERIF_REPO=wt), capture_output=True, text=True, timeout=7200)
